@@ -169,6 +169,28 @@ impl Prop for C10 {
                 }
             }
         }
+        // two-step histories: an assignment of every EID value (including the
+        // reserved 0x00 / 0xFF, which the bus may well send) followed by each query
+        {
+            let mut k = 0usize;
+            for op in 0..2u8 {
+                for eid in 0..=255u8 {
+                    for (cmd, data) in [(0x01u8, vec![0x00u8, 0x42]), (0x02, vec![]), (0x03, vec![]), (0x04, vec![0xFF]), (0x05, vec![]), (0x06, vec![0x00]), (0x06, vec![0x01]), (0x0C, vec![])] {
+                        k += 1;
+                        if k % nshards != shard {
+                            continue;
+                        }
+                        let first = refmodel::build_control_request(0x23, 0x34, 0x23, 0x34, 1, 0x01, &[op, eid]);
+                        let second = refmodel::build_control_request(0x23, 0x34, 0x23, 0x34, 2, cmd, &data);
+                        f(Case {
+                            cfg: cfg.clone(),
+                            ops: vec![Op::Process { bytes: first, cap: 64, fill: 0x33 }, Op::Process { bytes: second, cap: 64, fill: 0x44 }],
+                            repeat: 1,
+                        });
+                    }
+                }
+            }
+        }
         // every control byte x command x completion code x data length (see C09)
         let cfg2 = cfg.clone();
         super::enumer::for_each_control_packet(tier, shard, nshards, &mut |bytes| {
@@ -176,7 +198,7 @@ impl Prop for C10 {
         });
     }
     fn enumerated_desc(&self, tier: Tier) -> Option<String> {
-        Some(format!("for each of 24 reference-encoded packets (all message types, requests and responses): every truncation point 0..len (as is and with the PEC repaired), and every other value of every byte position before the PEC (PEC repaired), each through get_length, decode_packet and process_packet; plus process_packet on control messages with {} control bytes x all 256 command codes x completion codes x every data length 0..{}", if tier == Tier::Thorough { "all 256" } else { "10" }, if tier == Tier::Thorough { 20 } else { 18 }))
+        Some(format!("for each of 24 reference-encoded packets (all message types, requests and responses): every truncation point 0..len (as is and with the PEC repaired), and every other value of every byte position before the PEC (PEC repaired), each through get_length, decode_packet and process_packet; two-step histories (Set Endpoint ID with operation Set/Force and every EID byte 0..255, then each of 8 requests); plus process_packet on control messages with {} control bytes x all 256 command codes x completion codes x every data length 0..{}", if tier == Tier::Thorough { "all 256" } else { "10" }, if tier == Tier::Thorough { 20 } else { 18 }))
     }
     fn run(&self, case: &Case) -> CaseResult {
         let mut r = CaseResult::default();
